@@ -1,4 +1,5 @@
 import Q1t.Spec.Embed
+import Q1t.Model.Gate
 /-!
 Reference notions for C04 beyond `embed`: validity of a placement, the index map that gathers the
 listed qubits to the front, and the block product `(M ⊗ I_t)·v`.  Import-free, executable.
@@ -18,10 +19,43 @@ def gatherIndex (n : Nat) (bits : List Nat) (i : Nat) : Nat := subIndex n (bits 
 
 variable {α : Type} [Zero α] [Add α] [Mul α]
 
-/-- `(M ⊗ I_t)·v` for a `d×d` matrix `M` and a vector of `d·t` entries: entry `(i, j)` of the result
-is `Σ_c M[i][c] · v[c·t + j]` -/
-def blockMulVec (M : LMat α) (t : Nat) (v : List α) : List α :=
-  (List.range M.length).flatMap fun i => (List.range t).map fun j =>
-    (List.range M.length).foldl (fun acc c => acc + LMat.get M i c * v.getD (c * t + j) 0) 0
+/-! A route acts on a list of rows (`Row α m`: an amplitude in mode `vec`, a matrix row in mode
+`mat`).  The reference result is given entry by entry (only the *types* `Mode`/`Row` are shared
+with the model). -/
+
+/-- number of entries of a row -/
+def rowWidth : (m : Mode) → Row α m → Nat
+  | .vec, _ => 1
+  | .mat, r => r.length
+
+/-- entry `col` of a row -/
+def rowEntry : (m : Mode) → Row α m → Nat → α
+  | .vec, r, _ => r
+  | .mat, r, c => r.getD c 0
+
+/-- the row of width `w` with entries `f 0 … f (w-1)` (`w = 1` in mode `vec`) -/
+def rowMk : (m : Mode) → Nat → (Nat → α) → Row α m
+  | .vec, _, f => f 0
+  | .mat, w, f => (List.range w).map f
+
+/-- entry `col` of row `k` of a state, 0 outside -/
+def stateEntry (m : Mode) (v : List (Row α m)) (k col : Nat) : α :=
+  match v[k]? with
+  | some r => rowEntry m r col
+  | none => 0
+
+/-- `Σ_{c<d} f c`, left to right from 0 -/
+def sumTo (d : Nat) (f : Nat → α) : α := (List.range d).foldl (fun acc c => acc + f c) 0
+
+/-- `(M ⊗ I_t)·v` for a `d×d` matrix `M` and a state of `d·t` rows of width `w`: row `i·t + j` of the
+result has entries `Σ_c M[i][c] · v[c·t + j][col]` -/
+def blockMul (m : Mode) (w : Nat) (M : LMat α) (t : Nat) (v : List (Row α m)) : List (Row α m) :=
+  (List.range (M.length * t)).map fun r => rowMk m w fun col =>
+    sumTo M.length fun c => LMat.get M (r / t) c * stateEntry m v (c * t + r % t) col
+
+/-- `A·v` row-wise: row `r` of the result has entries `Σ_c A[r][c] · v[c][col]` -/
+def mulState (m : Mode) (w : Nat) (A : LMat α) (v : List (Row α m)) : List (Row α m) :=
+  (List.range A.length).map fun r => rowMk m w fun col =>
+    sumTo A.length fun c => LMat.get A r c * stateEntry m v c col
 
 end Q1t.Spec
